@@ -195,10 +195,24 @@ class Model(object):
                     keys.append(c)
         return dict((k, digest(k, data)) for k in keys)
 
+    MISSING_FILE = ("ValueError", "FileNotFoundError", "TypeError")
+
     def op_store(self, op):
         data = self.contents[op["c"]]
         pid = None if op.get("pid") is None else self.pids[op["pid"]]
         cid = self.cid_of(data)
+        if op.get("kind") == "missing":
+            # the data argument names no file: an argument error, nothing changes
+            sz = self.size_arg(data, op.get("size"))
+            if pid is not None and sz is not None and sz < 1:
+                return Expect(excs=["ValueError"])
+            if pid is not None and op.get("add") is not None and normalise_algo(op["add"]) is None:
+                return Expect(excs=["UnsupportedAlgorithm"])
+            if pid is not None and (op.get("ck") is None) != (op.get("ckalgo") is None):
+                return Expect(excs=["ValueError"])
+            if pid is not None and op.get("ckalgo") is not None and normalise_algo(op["ckalgo"]) is None:
+                return Expect(excs=["UnsupportedAlgorithm"])
+            return Expect(excs=self.MISSING_FILE)
         if pid is None:
             self.objs.add(cid)
             return Expect(ok={"pid": "HashStoreNoPid", "cid": cid, "size": len(data),
@@ -300,6 +314,8 @@ class Model(object):
     def op_smeta(self, op):
         pid = self.pids[op["pid"]]
         f = self.fmt(None if op.get("fmt") is None else self.formats[op["fmt"]])
+        if op.get("kind") == "missing":
+            return Expect(excs=self.MISSING_FILE)
         self.meta[(pid, f)] = self.mcontents[op["m"]]
         return Expect(ok=True)
 
